@@ -416,6 +416,7 @@ func (s *State) evalMapLiteral(node *ast.MapLiteral) object.Object {
 			log.Warnf("key %s is not hashable", key.Inspect())
 			return s.NewError("key " + key.Inspect() + " is not hashable")
 		}
+		key = object.CopyRegister(key) // its value now: evaluating the value may change it ({n: ++n}).
 		value := s.Eval(valueNode)
 		if value.Type() == object.ERROR {
 			return value
